@@ -67,9 +67,110 @@ class OsShim:
 
 
 def install_rng(fn):
-    """Route every RNG draw of the library through fn(nbytes, site)."""
-    crypto.register_random_bytes(lambda n: fn(n, "session"))
+    """Route every RNG draw of the library through fn(nbytes, site).  The seam is os.urandom (in the plug-in
+    and in ecdsa): the plug-in's registered random_bytes stays real code under test."""
+    crypto.register_random_bytes(REAL_RANDOM)
     shim = OsShim(lambda n: fn(n, "ecc"))
     plugin.os = OsShim(lambda n: fn(n, "session"))
     ecdsa.util.os = shim
     ecdsa.keys.os = shim
+
+
+# --------------------------------------------------------------------------
+# clean slate between runs: module-level and class-level state of the code under test is put back
+# to what it was right after import, so that no run depends on what an earlier run of the same
+# worker process left behind (a run must replay in a fresh interpreter).  Objects such as the curve
+# generators with their lazily built tables are deliberately left alone.
+# --------------------------------------------------------------------------
+import copy as _copy
+import types as _types
+
+_SIMPLE = (int, float, str, bytes, bool, type(None), tuple, frozenset)
+_CONT = (dict, list, set, bytearray)
+_SNAP = []   # (owner, name, kind, original)
+
+
+def _owners():
+    mods = [m for n, m in sorted(sys.modules.items())
+            if m is not None and (n == "bec2format" or n.startswith("bec2format.")
+                                  or n == "register_crypto_plugin" or n.startswith("register_crypto_plugin."))
+            and ".test_" not in n]
+    out = []
+    for m in mods:
+        out.append(m)
+        for v in list(vars(m).values()):
+            if isinstance(v, type) and getattr(v, "__module__", None) == m.__name__:
+                out.append(v)
+    return out
+
+
+def _take_snapshot():
+    for o in _owners():
+        for name, v in list(vars(o).items()):
+            if name.startswith("__") and name.endswith("__"):
+                continue
+            if isinstance(v, _CONT):
+                try:
+                    _SNAP.append((o, name, "cont", (v, _copy.deepcopy(v))))
+                except Exception:
+                    pass
+            elif isinstance(v, _SIMPLE):
+                _SNAP.append((o, name, "simple", v))
+    _SNAP.append((None, "names", "names", {id(o): set(vars(o)) for o in _owners()}))
+
+
+def reset_globals():
+    """returns the list of names that had to be put back (for diagnostics)"""
+    changed = []
+    for o, name, kind, orig in _SNAP:
+        if kind == "names":
+            for ow in _owners():
+                base = orig.get(id(ow))
+                if base is None:
+                    continue
+                for extra in set(vars(ow)) - base:
+                    v = vars(ow)[extra]
+                    if extra == "open" or isinstance(v, (_types.FunctionType, type, _types.ModuleType)):
+                        continue
+                    try:
+                        delattr(ow, extra)
+                        changed.append("%s.%s (new)" % (getattr(ow, "__name__", ow), extra))
+                    except Exception:
+                        pass
+            continue
+        cur = vars(o).get(name, None)
+        if kind == "cont":
+            obj, saved = orig
+            if cur is not obj:
+                try:
+                    setattr(o, name, obj)
+                except Exception:
+                    pass
+                changed.append("%s.%s (rebound)" % (getattr(o, "__name__", o), name))
+            if obj != saved:
+                changed.append("%s.%s" % (getattr(o, "__name__", o), name))
+                if isinstance(obj, dict):
+                    obj.clear()
+                    obj.update(_copy.deepcopy(saved))
+                elif isinstance(obj, set):
+                    obj.clear()
+                    obj.update(saved)
+                else:
+                    obj[:] = _copy.deepcopy(saved)
+        else:
+            if cur is not orig and cur != orig:
+                try:
+                    setattr(o, name, orig)
+                    changed.append("%s.%s" % (getattr(o, "__name__", o), name))
+                except Exception:
+                    pass
+    return changed
+
+
+_take_snapshot()
+_restore_registry_only = restore_registry
+
+
+def restore_registry():  # noqa: F811
+    _restore_registry_only()
+    reset_globals()
